@@ -381,6 +381,4 @@ Complete == dead \/ nf = MaxFrames
 EmitCase ==
     (Gen /\ Complete) =>
         PrintT(<<"CASE", ToJson([kind |-> kind, cp |-> cp, steps |-> hist])>>)
-
-\* statistics for the evidence file (classes of behaviour that were reached)
 =============================================================================
